@@ -1,5 +1,6 @@
 """GameSpy 3 family (`gamespy::three::query` = entry gs3, `query_vars` = entry gs3vars): how the generic property
 runners drive it."""
+from props import malformed
 
 FAMILY = dict(send_units=1,  # C13_gs3_send_bound: the data request is paid for by the challenge reply
     name="gs3", nargs=2, gen="gs3", retries=1, port=0, decode_property="C04", entry="gs3",
@@ -64,7 +65,7 @@ def c10_build(valid, unit, v, r, new_id):
             elif e == "F":
                 faults.append(True)
             else:
-                newds.append(b"\xff\xff")
+                newds.append(malformed.CURRENT)
                 faults.append(False)
         else:
             if e == "S":
@@ -74,7 +75,7 @@ def c10_build(valid, unit, v, r, new_id):
                 newds += [hs]
                 faults += [False, True]
             else:
-                newds += [hs, b"\xff\xff"]
+                newds += [hs, malformed.CURRENT]
                 faults += [False, False]
     c.script = [newds]
     c.args[FAMILY["retries"]] = str(r)
